@@ -1,26 +1,33 @@
 #!/bin/bash
-# seed_verify.sh <ID> [patchdir]: confirm a seeded change in its scratch worktree /tmp/seed/<ID>.
-# Steps: build; tests of every package depending on a changed package (demo aside); demo with; demo without.
+# seed_verify.sh <ID> <go-test-args-for-demo...>
+# Confirms a seeded change in its scratch worktree /tmp/seed/<ID>:
+#   build; tests of every package whose test binary depends on a changed package (demo set aside);
+#   demo with the change (must fail); demo without the change (must pass).
 set -u
-ID=$1
-SW=${2:-/tmp/seedwork/$ID}
+ID=$1; shift
+SW=/tmp/seedwork/$ID
 WT=/tmp/seed/$ID
 . /verif/env.sh
 cd $WT || exit 2
+OUT=/tmp/seedaside/$ID; mkdir -p $OUT
 git checkout -q -- . 2>/dev/null
-# remove untracked demo files for baseline
 DEMOS=$(git status --porcelain | awk '$1=="??"{print $2}')
-mkdir -p /tmp/seedaside/$ID; for f in $DEMOS; do mkdir -p /tmp/seedaside/$ID/$(dirname $f); mv $f /tmp/seedaside/$ID/$f; done
+for f in $DEMOS; do mkdir -p $OUT/$(dirname $f); mv $f $OUT/$f; done
 git apply $SW/patch.diff || { echo "PATCH-FAIL"; exit 2; }
 CHANGED=$(git diff --name-only | xargs -n1 dirname | sort -u | sed 's|^|honnef.co/go/tools/|')
 echo "changed pkgs: $CHANGED"
 go build ./... || { echo "BUILD-FAIL"; exit 2; }
-go vet $(echo $CHANGED) >/dev/null 2>&1 || echo "note: vet complains"
-# dependents
-DEPS=$(go list -test -deps -f '{{if .ForTest}}{{.ForTest}}{{else}}{{.ImportPath}}{{end}} {{join .Deps " "}} {{join .Imports " "}}' ./... 2>/dev/null | awk -v ch="$CHANGED" 'BEGIN{n=split(ch,c," ")}{for(i=1;i<=n;i++){for(j=1;j<=NF;j++){if($j==c[i]){print $1;break}}}}' | grep '^honnef.co' | sort -u)
+DEPS=$(go list -test -f '{{.ImportPath}}|{{join .Deps " "}}' ./... 2>/dev/null | awk -F'|' -v ch="$CHANGED" 'BEGIN{n=split(ch,c," ")}{m=split($2,d," ");hit=0;for(j=1;j<=m&&!hit;j++){for(i=1;i<=n;i++){if(d[j]==c[i]||index(d[j],c[i]" [")==1){hit=1;break}}} split($1,nm," "); for(i=1;i<=n;i++){if(nm[1]==c[i])hit=1} if(hit){x=nm[1];sub(/\.test$/,"",x);sub(/_test$/,"",x);print x}}' | sort -u)
 echo "dependent packages: $(echo $DEPS | wc -w)"
-go test -vet=off -count=1 -timeout 60m $DEPS 2>&1 | grep -v "^ok\|no test files" > /tmp/seedaside/$ID/suite.log
-echo "suite non-ok lines: $(wc -l < /tmp/seedaside/$ID/suite.log)"; head -20 /tmp/seedaside/$ID/suite.log
-# restore demos
-for f in $DEMOS; do mv /tmp/seedaside/$ID/$f $f; done
+go test -vet=off -count=1 -timeout 90m $DEPS 2>&1 | grep -v "^ok\|no test files" > $OUT/suite.log
+echo "suite non-ok lines: $(wc -l < $OUT/suite.log)"; head -20 $OUT/suite.log
+for f in $DEMOS; do mv $OUT/$f $f; done
 echo "DEMOS: $DEMOS"
+if [ $# -gt 0 ]; then
+  echo "--- demo WITH change: go test $*"
+  go test -count=1 "$@" > $OUT/demo_with.log 2>&1; echo "demo-with exit=$?"; tail -5 $OUT/demo_with.log
+  git apply -R $SW/patch.diff
+  echo "--- demo WITHOUT change"
+  go test -count=1 "$@" > $OUT/demo_without.log 2>&1; echo "demo-without exit=$?"; tail -3 $OUT/demo_without.log
+  git apply $SW/patch.diff
+fi
